@@ -185,18 +185,49 @@ def grid_cases(cdef, tier, seed):
     return cdef.grid(tier, rng)
 
 
+class _CaseTimeout(BaseException):
+    pass
+
+
+_TIMEOUTS = None  # shared counter of timed-out cases of the contract being evaluated (set before the pool forks)
+
+
 def _grid_case(args):
+    """one bounded case, under a wall-clock limit: a change that makes the real code loop for ever must not hang the check (reported as a checker error: a time-out is
+    never turned into a violation)"""
+    import signal
     pid, name, assign = args
     cd = next(c for c in C.PROPS[pid] if c.name == name)
-    st, failures, ctx = C.run_concrete(cd, assign)
-    return st, failures, dict(ctx.used), len(ctx.checked)
+    limit = float(os.environ.get("PYVC_CASE_TIMEOUT", "60" if os.environ.get("PYVC_TIER", "quick") == "quick" else "900"))
+    if _TIMEOUTS is not None and _TIMEOUTS.value >= 8:
+        # enough cases of this contract have already run out of time: the rest is not waited for
+        return "timeout", ["timeout:skipped after 8 time-outs"], dict(assign), 0
+
+    def on_alarm(signum, frame):
+        raise _CaseTimeout()
+    old = signal.signal(signal.SIGALRM, on_alarm)
+    signal.setitimer(signal.ITIMER_REAL, limit)
+    try:
+        st, failures, ctx = C.run_concrete(cd, assign)
+        return st, failures, dict(ctx.used), len(ctx.checked)
+    except _CaseTimeout:
+        if _TIMEOUTS is not None:
+            with _TIMEOUTS.get_lock():
+                _TIMEOUTS.value += 1
+        return "timeout", [f"timeout:{limit:.0f}s"], dict(assign), 0
+    finally:
+        signal.setitimer(signal.ITIMER_REAL, 0)
+        signal.signal(signal.SIGALRM, old)
 
 
 def run_grid(cdef, tier, seed, max_fail=300, procs=16):
     """bounded stand-in / concrete enumeration: returns stats dict (cases are evaluated in a process pool)"""
     ev = nontriv = skipped = 0
-    fails, samples, seen = [], [], set()
+    fails, samples, seen, timeouts = [], [], set(), []
     cases = list(grid_cases(cdef, tier, seed))
+    global _TIMEOUTS
+    import multiprocessing as _mp
+    _TIMEOUTS = _mp.get_context("fork").Value("i", 0)
     if len(cases) >= 32 and procs > 1:
         from concurrent.futures import ProcessPoolExecutor
         import multiprocessing as mp
@@ -215,10 +246,12 @@ def run_grid(cdef, tier, seed, max_fail=300, procs=16):
             nontriv += 1
         if len(samples) < 3:
             samples.append({"contract": cdef.full, "input": used, "clauses_checked": n_checked, "status": st})
+        if st == "timeout":
+            timeouts.append({"assign": dict(used), "failures": failures})
         if st in ("fail", "error"):
             if len(fails) < max_fail or all(f["failures"] != failures for f in fails):
                 fails.append({"assign": dict(used), "failures": failures})
-    return {"evaluations": ev, "distinct_nontrivial": nontriv, "skipped": skipped, "fails": fails, "samples": samples}
+    return {"evaluations": ev, "distinct_nontrivial": nontriv, "skipped": skipped, "fails": fails, "samples": samples, "timeouts": timeouts}
 
 
 def main(argv=None):
@@ -232,6 +265,7 @@ def main(argv=None):
     ap.add_argument("--verbose", "-v", action="store_true")
     args = ap.parse_args(argv)
     tier = "thorough" if args.tier == "thorough" else "quick"
+    os.environ["PYVC_TIER"] = tier
     seed = int(os.environ.get("VERIF_SEED", "0") or 0)
     pid = args.pid
     t_start = time.time()
@@ -389,6 +423,8 @@ def main(argv=None):
             bounded.append({"contract": cd.full, "functions": cd.funcs, "level": "bounded" if cd.level != "finite" else "finite-exhaustive",
                             "evaluations": st["evaluations"], "distinct_nontrivial": st["distinct_nontrivial"],
                             "skipped_by_precondition": st["skipped"], "rule": (cd.grid.__doc__ or "").strip()})
+            for to in st.get("timeouts", [])[:3]:
+                checker_errors.append(f"{cd.full}: bounded case exceeded its time limit ({to['failures'][0]}) on {to['assign']}: undecided, not a violation")
             if cd.level != "proof" and st["distinct_nontrivial"] == 0:
                 checker_errors.append(f"{cd.full}: bounded stand-in evaluated no non-trivial case")
             for fl in st["fails"]:
